@@ -113,8 +113,41 @@ func (p c09) RunBatch(ctx *core.Ctx, batch int) {
 				continue
 			}
 			c09Tree(ctx, t.Clone(), r)
+			c09DeepParens(ctx, t.Clone(), r)
 		}
 	}
+}
+
+// c09DeepParens: many redundant pairs (3 … 128, around 23-25 and powers of two) around the whole
+// query, around one operand of an explicit operator, and around one field value.
+func c09DeepParens(ctx *core.Ctx, t *qt.Node, r *rand.Rand) {
+	depths := []int{3, 8, 15, 16, 17, 22, 23, 24, 25, 31, 32, 33, 64, 128}
+	base := qt.Print(t, qt.Style{})
+	n := depths[r.Intn(len(depths))]
+	v := qt.Print(t, qt.Style{WrapAll: n})
+	ctx.Case(v, func() { c09Same(ctx, "parens-deep", base, v, false) })
+	var operands, values []*qt.Node
+	t.Walk(func(x *qt.Node) {
+		if !x.IsLeaf() && !(x.Kind == qt.KAnd && x.Implicit) {
+			operands = append(operands, x.Kids...)
+		}
+		if x.Kind == qt.KField || x.Kind == qt.KCmp {
+			values = append(values, x)
+		}
+	})
+	if len(operands) > 0 {
+		k := operands[r.Intn(len(operands))]
+		n := depths[r.Intn(len(depths))]
+		v := qt.Print(t, qt.Style{Extra: map[*qt.Node]int{k: n}})
+		ctx.Case(v, func() { c09Same(ctx, "parens-deep", base, v, false) })
+	}
+	if len(values) > 0 {
+		x := values[r.Intn(len(values))]
+		n := depths[r.Intn(len(depths))]
+		v := qt.Print(t, qt.Style{WrapValue: map[*qt.Node]int{x: n}})
+		ctx.Case(v, func() { c09Same(ctx, "parens-deep", base, v, false) })
+	}
+	ctx.Max("deepest_redundant_parens", float64(n))
 }
 
 // c09Units are well-formed operands as token lists; chained they give long queries whose layout
@@ -374,8 +407,8 @@ func (c09) Finish(res *core.Result, cov map[string]any) []string {
 	reasons := []string{}
 	cov["distinct_nontrivial"] = res.NDistinct("nontrivial")
 	cov["exhaustive"] = true
-	cov["rule"] = "token sequences up to length L (exhaustive) with every separator re-filled by space/tab/CR/LF runs, leading/trailing runs, separators removed next to symbol tokens, and every lower-case subset of their keywords (both directions of the iff); every depth<=2 tree (exhaustive over the leaf alphabet), with and without juxtapositions, under every single redundant-parenthesis placement the statement names (whole query, operand of an explicit operator, field value); chains of 1…400 operands (25 unit shapes, repeated or mixed, juxtaposed / AND / OR) in three layouts (single spaces, no space next to a symbol, long whitespace runs with leading/trailing runs). Non-trivial = distinct (base, variant) pair whose base parses."
-	for _, k := range []string{"variants_whitespace", "variants_whitespace-removed", "variants_keyword-case", "variants_parens-whole", "variants_parens-operand", "variants_parens-value", "variants_parens-amount"} {
+	cov["rule"] = "token sequences up to length L (exhaustive) with every separator re-filled by space/tab/CR/LF runs, leading/trailing runs, separators removed next to symbol tokens, and every lower-case subset of their keywords (both directions of the iff); every depth<=2 tree (exhaustive over the leaf alphabet), with and without juxtapositions, under every single redundant-parenthesis placement the statement names (whole query, operand of an explicit operator, field value), and 3…128 redundant pairs in each of those places on random deeper trees; chains of 1…400 operands (25 unit shapes, repeated or mixed, juxtaposed / AND / OR) in three layouts (single spaces, no space next to a symbol, long whitespace runs with leading/trailing runs). Non-trivial = distinct (base, variant) pair whose base parses."
+	for _, k := range []string{"variants_whitespace", "variants_whitespace-removed", "variants_keyword-case", "variants_parens-whole", "variants_parens-operand", "variants_parens-value", "variants_parens-amount", "variants_parens-deep"} {
 		floor(res.Counters[k] >= 500, &reasons, "%s = %d", k, res.Counters[k])
 	}
 	floor(res.Counters["long_chains"] >= 1000, &reasons, "long chains %d", res.Counters["long_chains"])
